@@ -67,6 +67,22 @@ def samePairsMultiset (a b : LF) : Bool :=
   b.hypergraph.quotient.1.length == b.hypergraph.quotient.2.length &&
   pa.length == pb.length && pa.all (fun x => pa.count x == pb.count x)
 
+/-- same nodes, hyperedges, incidence and interfaces, literally; the pending unifications equal as a
+    multiset of unordered pairs (their order in the two parallel lists is bookkeeping no property fixes) -/
+def sameUpToPairOrder (a b : LF) : Bool :=
+  a.sources == b.sources && a.targets == b.targets && a.hypergraph.nodes == b.hypergraph.nodes &&
+  a.hypergraph.edges == b.hypergraph.edges && a.hypergraph.adjacency == b.hypergraph.adjacency &&
+  samePairsMultiset a b
+
+/-- lax tensor and its in-place variants (C02: literally f then g): exact, else exact in everything but
+    the order of the pending unifications -/
+def laxLiteralRel (m : Res LF) (impl : Sx) : Outcome :=
+  let o := exact m impl
+  if o.agree then o else
+  match m, (unOk impl).bind (dec (α := LF)) with
+  | .ok a, some b => { o with agree := sameUpToPairOrder a b, rel := "literal-up-to-order-of-pending-unifications" }
+  | _, _ => o
+
 /-- lax-diagram-valued result of an operation whose property speaks about the STRICT diagram the
     result denotes (C10 composition, C12/C13 functor images, C14 optic images, C19 forgetting) and
     leaves the lax data themselves open.  Tiers: exact; equal up to a node renumbering (`laxIso`); same
@@ -202,10 +218,15 @@ def unrenOp (ren : L) (op : Sx) : Sx :=
 
 /-- run the model along the implementation's trace, tracking `ren`; `none` = malformed,
     `some (agree, note)` otherwise -/
-def runHistoryRen (B : Backend) : LF → L → List Sx → List Sx → Option (Bool × String)
+def runHistoryRen (B : Backend) (pairsAsSet : Bool := false) : LF → L → List Sx → List Sx → Option (Bool × String)
   | _, _, [], [] => some (true, "")
   | _, _, [], _ => some (false, "implementation trace is longer than the history")
   | f, ren, op :: ops, implStep :: implRest =>
+    -- the hypergraph-level quotient leaves the interfaces of the surrounding open hypergraph pointing
+    -- at the OLD numbering: from there on they are stale on both sides and nothing is compared
+    if (match op with | .l [.s "h_quotient"] => !(f.sources.isEmpty && f.targets.isEmpty) | _ => false) then
+      some (true, "h_quotient on a diagram with interface entries: not compared further")
+    else
     match editStep B f (unrenOp ren op), implStep with
     | Option.none, _ => Option.none
     | some (.ok (f', out)), .l [iout, istate] =>
@@ -236,7 +257,12 @@ def runHistoryRen (B : Backend) : LF → L → List Sx → List Sx → Option (B
             keptM.map (fun i => (keptI.idxOf? (ren.getD i i)).getD 0)
           | _, _, _ => ren ++ (List.range' ren.length (n' - ren.length))
         let okShape := ren'.length == n' && isPermOfRange ren'
-        let stateOk := okShape && enc (renState ren' f') == enc fi
+        -- (C09's histories: the pending unifications matter only as a set of unordered pairs)
+        let rs := renState ren' f'
+        let stateOk := okShape && (enc rs == enc fi ||
+          (pairsAsSet && rs.sources == fi.sources && rs.targets == fi.targets &&
+           rs.hypergraph.nodes == fi.hypergraph.nodes && rs.hypergraph.edges == fi.hypergraph.edges &&
+           rs.hypergraph.adjacency == fi.hypergraph.adjacency && samePairsMultiset rs fi))
         -- outputs: node ids are pushed through the new renumbering, maps are compared by kernel
         let g := fun i => ren'.getD i i
         let outOk : Bool :=
@@ -266,7 +292,7 @@ def runHistoryRen (B : Backend) : LF → L → List Sx → List Sx → Option (B
                 | _, _ => false)
              | _ => mapIdsSx g o == io)
           | _, o, io => o == io
-        if stateOk && outOk then runHistoryRen B f' ren' ops implRest
+        if stateOk && outOk then runHistoryRen B pairsAsSet f' ren' ops implRest
         else some (false, s!"history diverges at step {ops.length} from the end: stateOk={stateOk} outOk={outOk}")
     | some (.ok _), .s "panic" => some (false, "implementation rejected a step the model accepts")
     | some (.ok _), _ => some (false, "malformed implementation step")
@@ -291,7 +317,9 @@ def quotientIdempotentOnImpl (start : LF) (ops implTrace : List Sx) : Bool :=
 
 def laxEdit (B : Backend) (op : String) (args : List Sx) (impl : Sx) : Option Outcome :=
   match op, args with
-  | "lax.edit", [start, .l ops] => do
+  | "lax.edit", [start, .l ops] | "lax.quot", [start, .l ops] => do
+    -- `lax.quot`: the same histories run for C09 (quotient semantics); there the recorded pending
+    -- unifications are compared as a set of unordered pairs, for C11 (`lax.edit`) exactly
     let f0 : LF ← dec start
     let tr ← runHistory B f0 ops []
     let m := okSx (.l tr)
@@ -303,7 +331,7 @@ def laxEdit (B : Backend) (op : String) (args : List Sx) (impl : Sx) : Option Ou
           pure { model := m, agree := false, rel := "oracle:quotient-idempotent",
                  note := "a quotient of a diagram without pending unifications changed it or returned a non-identity map" }
         else
-          let r ← runHistoryRen B f0 (List.range f0.hypergraph.nodes.length) ops implTrace
+          let r ← runHistoryRen B (op == "lax.quot") f0 (List.range f0.hypergraph.nodes.length) ops implTrace
           pure { model := m, agree := r.1, rel := "history-up-to-quotient-renumbering", note := r.2 }
       | _ => pure { model := m, agree := false, rel := "exact" }
   | _, _ => none
@@ -327,17 +355,26 @@ def laxCat (B : Backend) (op : String) (args : List Sx) (impl : Sx) : Option Out
     pure (exact (Res.ok (LOHG.singleton x a b : LF)) impl)
   | "lax.tensor", [f, g] => do
     let f : LF ← dec f; let g : LF ← dec g
-    pure (exact (Res.ok (LOHG.tensor f g)) impl)
+    pure (laxLiteralRel (Res.ok (LOHG.tensor f g)) impl)
   | "lax.tensor_assign", [f, g] => do
     let f : LF ← dec f; let g : LF ← dec g
-    pure (exact (Res.ok (LOHG.tensorAssign f g)) impl)
+    pure (laxLiteralRel (Res.ok (LOHG.tensorAssign f g)) impl)
   | "lax.append", [f, g] => do
     let f : LF ← dec f; let g : LF ← dec g
     let r := LOHG.append f g
-    pure (exact (Res.ok (r.1, r.2)) impl)
+    let o := exact (Res.ok (r.1, r.2)) impl
+    if o.agree then pure o else
+    match (unOk impl).bind (dec (α := LF × (L × L))) with
+    | some (b, st) => pure { o with agree := sameUpToPairOrder r.1 b && st == r.2, rel := "literal-up-to-order-of-pending-unifications" }
+    | Option.none => pure o
   | "lax.coproduct_assign", [g, h] => do
     let g : LH ← dec g; let h : LH ← dec h
-    pure (exact (Res.ok (LHG.coproductAssign g h)) impl)
+    let mh := LHG.coproductAssign g h
+    let o := exact (Res.ok mh) impl
+    if o.agree then pure o else
+    match (unOk impl).bind (dec (α := LH)) with
+    | some b => pure { o with agree := sameUpToPairOrder ⟨[], [], mh⟩ ⟨[], [], b⟩, rel := "literal-up-to-order-of-pending-unifications" }
+    | Option.none => pure o
   | "lax.compose", [f, g] => do
     let f : LF ← dec f; let g : LF ← dec g
     pure (laxDenoteRel B (LOHG.compose f g) impl)
@@ -346,7 +383,7 @@ def laxCat (B : Backend) (op : String) (args : List Sx) (impl : Sx) : Option Out
     pure (laxDenoteRel B (LOHG.laxCompose f g) impl)
   | "lax.twist", [a, b] => do
     let a : L ← dec a; let b : L ← dec b
-    pure (exact (LOHG.twist a b : Res LF) impl)
+    pure (laxDenoteRel B (LOHG.twist a b : Res LF) impl)
   | "lax.dagger", [f] => do
     let f : LF ← dec f
     pure (exact (Res.ok f.dagger) impl)
@@ -432,7 +469,26 @@ def functorG (B : Backend) (op : String) (args : List Sx) (impl : Sx) : Option O
          a.hypergraph.edges == b.hypergraph.edges && a.hypergraph.adjacency == b.hypergraph.adjacency &&
          samePairsMultiset a b && enc wa == enc wb then
         pure { o with agree := true, rel := "same-pending-unifications(as a multiset of unordered pairs)" }
-      else pure o
+      else
+        -- C13's own criteria judged on the implementation's answer `(b, wb)`:
+        --  (i) `b` denotes the same strict diagram as the model's image (after quotient, up to ≅);
+        -- (ii) the witness relates input node i to exactly |F(label i)| nodes of `b`, in order, each
+        --      carrying the corresponding label of F(label i);
+        --(iii) pushing f's interfaces through the witness and b's quotient map gives b's interfaces
+        --      pushed through the quotient map.
+        let dn := laxDenoteRel B (.ok a) (okSx (enc b))
+        let fw : List L := f.hypergraph.nodes.map (famObj ov)
+        let segs := wb.segs
+        let shapeOk := segs.length == fw.length && wb.values.target == b.hypergraph.nodes.length &&
+          (segs.zip fw).all (fun p => p.1.length == p.2.length &&
+            (p.1.zip p.2).all (fun vl => b.hypergraph.nodes[vl.1]? == some vl.2))
+        let pushOk : Bool := match LOHG.quotient B b with
+          | .ok (true, q, bq) =>
+            let through := fun (ids : L) => (ids.flatMap (fun i => segs.getD i [])).map (fun v => q.table.getD v 0)
+            through f.sources == bq.sources && through f.targets == bq.targets
+          | _ => false
+        pure { o with agree := dn.agree && shapeOk && pushOk, decisive := dn.decisive,
+                      rel := "witness-criteria(C13 on the implementation's answer)" }
     | _, _ => pure o
   | _, _ => none
 
